@@ -32,7 +32,7 @@ from . import common
 from . import c14
 
 LEVEL = 'exploration'
-KNOWN = {}
+KNOWN = {'crash:similar-insert': 'C16-similar-insert-render'}
 
 CATS = list(c14.CATS)
 ALL_SUBSETS = [frozenset(c for c, bit in zip(CATS, bits) if bit) for bits in itertools.product([0, 1], repeat=6)]
